@@ -501,13 +501,21 @@ class Evaluator:
 
         return call
 
+    def _iter(self, node):
+        """Iterator over the value of `node`; a value that cannot be iterated is the program's TypeError."""
+        v = self.ev(node)
+        try:
+            return iter(v)
+        except TypeError:
+            raise Raised("TypeError")
+
     def _comp(self, gens, body):
         def rec(i):
             if i == len(gens):
                 yield body()
                 return
             g = gens[i]
-            for item in self.ev(g.iter):
+            for item in self._iter(g.iter):
                 self._assign(g.target, item)
                 if all(self.ev(c) for c in g.ifs):
                     yield from rec(i + 1)
@@ -724,7 +732,7 @@ class Evaluator:
             else:
                 self._block(st.orelse)
         elif isinstance(st, ast.For):
-            for item in self.ev(st.iter):
+            for item in self._iter(st.iter):
                 self._assign(st.target, item)
                 try:
                     self._block(st.body)
